@@ -136,8 +136,12 @@ def exercise(name, ctor, rng, horizon, seed):
     physics = name.split("/")[0].split("(")[0] not in ("CartPole", "MountainCar", "ContinuousMountainCar", "Acrobot", "Pendulum")
 
     # reference composition of base_env.py:240-286 (the Coq model Env.gym_step / gym_reset transliterated)
+    # the environment is passed as an ARGUMENT of every jitted reference function, as lerax's own jitted env.step / env.reset receive it
+    # (`self`): closing over it turns the model parameters into XLA constants, and constant folding changes the numerics of the MJX
+    # contact solver enough to move constraint forces of the G1 reset states by tens of percent (measured: closure vs argument differ,
+    # argument vs env.reset are bit-identical)
     @eqx.filter_jit
-    def ref_step(state, action, key):
+    def _ref_step(env, state, action, key):
         tk, rk, ek, xk = jr.split(key, 4)
         nxt = env.transition(state, action, key=tk)
         rew = env.reward(state, action, nxt, key=rk)
@@ -147,26 +151,29 @@ def exercise(name, ctor, rng, horizon, seed):
         return new, env.observation(new, key=key), rew, term, trunc, nxt
 
     @eqx.filter_jit
-    def ref_reset(key):
+    def _ref_reset(env, key):
         ik, ok = jr.split(key, 2)
         s = env.initial(key=ik)
         return s, env.observation(s, key=ok)
 
-    comps_j = {"transition": eqx.filter_jit(lambda s, a, k: env.transition(s, a, key=k)),
-               "observation": eqx.filter_jit(lambda s, k: env.observation(s, key=k)),
-               "reward": eqx.filter_jit(lambda s, a, n, k: env.reward(s, a, n, key=k)),
-               "terminal": eqx.filter_jit(lambda s, k: env.terminal(s, key=k))}
+    ref_step = lambda state, action, key: _ref_step(env, state, action, key)      # noqa: E731
+    ref_reset = lambda key: _ref_reset(env, key)                                  # noqa: E731
+    _jt = eqx.filter_jit(lambda e, s, a, k: e.transition(s, a, key=k)); _jo = eqx.filter_jit(lambda e, s, k: e.observation(s, key=k))
+    _jr = eqx.filter_jit(lambda e, s, a, n, k: e.reward(s, a, n, key=k)); _je = eqx.filter_jit(lambda e, s, k: e.terminal(s, key=k))
+    comps_j = {"transition": lambda s, a, k: _jt(env, s, a, k), "observation": lambda s, k: _jo(env, s, k),
+               "reward": lambda s, a, n, k: _jr(env, s, a, n, k), "terminal": lambda s, k: _je(env, s, k)}
     # ---- recorded environment for the Coq model (Lerax.Rec): component results as finite tables over state/observation ids
     sreg, oreg = Registry(physics), Registry(physics)
     rec = {"init": [], "trans": [], "obs": [], "rew": [], "term": [], "trunc": [], "steps": [], "outs": []}
-    j_init = eqx.filter_jit(lambda k: env.initial(key=k))
-    j_trunc = eqx.filter_jit(lambda s: env.truncate(s))
+    _ji = eqx.filter_jit(lambda e, k: e.initial(key=k)); _ju = eqx.filter_jit(lambda e, s: e.truncate(s))
+    j_init = lambda k: _ji(env, k)       # noqa: E731
+    j_trunc = lambda s: _ju(env, s)      # noqa: E731
 
     k0 = jr.key(seed)
     ik0, ok0 = jr.split(k0, 2)
     s0 = j_init(ik0)
     rec["init"].append([[[0, 0], [2, 0]], sreg.id(s0)])
-    rec["obs"].append([sreg.id(s0), [[0, 0], [2, 1]], oreg.id(eqx.filter_jit(lambda s, k: env.observation(s, key=k))(s0, ok0))])
+    rec["obs"].append([sreg.id(s0), [[0, 0], [2, 1]], oreg.id(comps_j["observation"](s0, ok0))])
     state, obs, info = env.reset(key=k0)
     rec["reset_key"] = [[0, 0]]; rec["reset_state"] = sreg.id(state); rec["reset_obs"] = oreg.id(obs)
     rs, ro = ref_reset(k0)
